@@ -207,6 +207,11 @@ class ExprMixin:
         v, st = self.eval(n.value, st, frame, out)
         return frozenset(("spread", t) for t in v), st
 
+    def ex_NamedExpr(self, n, st, frame, out):
+        v, st = self.eval(n.value, st, frame, out)
+        st = self.assign(n.target, v, st, frame, out)
+        return v, st
+
     def ex_Lambda(self, n, st, frame, out):
         return V(("unknown", n.lineno)), st
 
@@ -725,7 +730,7 @@ class ExprMixin:
         if d.startswith("yaml."):
             self.raise_star(st, out)
             return V(("yaml", d, tuple(sorted((args[0] if args else EMPTY), key=repr)))), st
-        if d.startswith(("threading.", "multiprocessing.", "logging.", "inspect.", "datetime.")):
+        if d.startswith(("threading.", "multiprocessing.", "logging.", "inspect.", "datetime.", "functools.", "itertools.", "operator.", "typing.", "collections.")):
             return V(("callres", d, n.lineno)), st
         self.unresolved[d] = self.unresolved.get(d, 0) + 1
         self.raise_star(st, out)
